@@ -64,7 +64,7 @@ func NonEmptyCString(maxLen int) *rapid.Generator[string] {
 	})
 }
 
-var someCodes = []string{"00000", "01000", "0A000", "22012", "23505", "28P01", "28000", "42601", "42P01", "54000", "57014", "58000", "XX000", "XX001", "P0001", "08003", "26000"}
+var someCodes = []string{"XXUUU", "XX000", "00000", "01000", "0A000", "22012", "23505", "28P01", "28000", "42601", "42P01", "54000", "57014", "58000", "XX000", "XX001", "P0001", "08003", "26000"}
 var Severities = []string{"ERROR", "FATAL", "PANIC", "WARNING", "NOTICE", "DEBUG", "INFO", "LOG"}
 var lineBounds = []int32{0, 1, 2, 9, 10, 255, 256, 257, 258, 65535, 65536, 16777216, math.MaxInt32, math.MaxInt32 - 1, -1, -256, math.MinInt32, 0x00010001, 0x01000000, 0x00000100}
 
